@@ -15,6 +15,7 @@ def specStep (live : List (Nat × St)) (alive : Nat → Bool) : Op → List (Nat
   | .changeState i st => if st = .noState then live else live.modify i (fun p => (p.1, st))
   | .clear => []
   | .deleteAll => []
+  | .lookup _ => live
 
 theorem renumberFrom_map_of {β : Type} (g : Node → β) (hg : ∀ (n : Node) (j : Int), g { n with arrayIndex := j } = g n)
     (idx j : Nat) (ns : List Node) : (renumberFrom idx j ns).map g = ns.map g := by
@@ -215,6 +216,7 @@ theorem abs_step {s : State} (I : Inv s) (op : Op) :
       · rfl
       · exact abs_modify s.nodes i st
   | clear => rfl
+  | lookup i => rfl
   | deleteAll =>
     simp only [step, specStep, deleteAll]
     have := freeAll_isSome s.heap s.nodes I.instNodup I.alive
